@@ -7,6 +7,7 @@ import (
 	"go/types"
 	"math/big"
 	"os"
+	"regexp"
 	"sort"
 	"strings"
 
@@ -420,6 +421,7 @@ func rulesC05(p *Prog, r *Report) {
 	} else {
 		ruleIDsScannable(p, r, t, kw, "G7")
 	}
+	ruleIDClassExact(p, r, kw, "G10")
 	ruleP1(p, r, eng)
 	ruleG8(p, r)
 	ruleAfterRecognition(p, r, "G9", true)
@@ -1475,4 +1477,52 @@ func isRestOfBuffer(fb *fnBounds, f *ssa.Function, v ssa.Value, st ssa.Instructi
 		return false
 	}
 	return fb.versionAt(clsF, at) == fb.versionAt(clsF, st) && fb.versionAt(clsG, at) == fb.versionAt(clsG, st)
+}
+
+// ruleIDClassExact: the ids of the grammar (license ids, exception ids, LicenseRef and DocumentRef names) are
+// non-empty runs over exactly the SPDX idstring alphabet — letters, digits, '-' and '.'. License and exception
+// ids are further restricted by the lists; reference names are not, so for them the reader's byte class *is*
+// the accepted language.
+func ruleIDClassExact(p *Prog, r *Report, k *scanKeywords, rule string) {
+	r.Rule(rule, "necessary", 1, "the id reader accepts exactly non-empty runs over the SPDX idstring alphabet [A-Za-z0-9.-]: no other byte can be part of a LicenseRef / DocumentRef name, and none of these is refused")
+	if k == nil || k.IDPattern == "" {
+		r.Unknown(rule, "id-class", "-", "unresolved anchor: the id reader's pattern / byte class")
+		return
+	}
+	re, err := regexp.Compile(`^(?:` + k.IDPattern + `)$`)
+	if err != nil {
+		r.Unknown(rule, "id-class", "-", fmt.Sprintf("id pattern %q does not compile: %v", k.IDPattern, err))
+		return
+	}
+	inClass := func(b byte) bool {
+		return 'A' <= b && b <= 'Z' || 'a' <= b && b <= 'z' || '0' <= b && b <= '9' || b == '-' || b == '.'
+	}
+	var extra, missing []string
+	for b := 0; b < 256; b++ {
+		m := re.MatchString(string([]byte{byte(b)}))
+		switch {
+		case m && !inClass(byte(b)):
+			extra = append(extra, fmt.Sprintf("%q", string([]byte{byte(b)})))
+		case !m && inClass(byte(b)):
+			missing = append(missing, fmt.Sprintf("%q", string([]byte{byte(b)})))
+		}
+	}
+	var probs []string
+	if len(extra) > 0 {
+		probs = append(probs, "accepts "+strings.Join(extra, " ")+", which the grammar does not allow in an id (a LicenseRef or DocumentRef name containing it would be accepted)")
+	}
+	if len(missing) > 0 {
+		probs = append(probs, "refuses "+strings.Join(missing, " ")+", which the grammar allows in an id")
+	}
+	if re.MatchString("") {
+		probs = append(probs, "accepts the empty id")
+	}
+	if !re.MatchString("a-1.b") || !re.MatchString("Z9") {
+		probs = append(probs, "does not accept a run of several id bytes")
+	}
+	if len(probs) > 0 {
+		r.Bad(rule, "id-class", "-", fmt.Sprintf("the id reader (pattern %s) %s", k.IDPattern, strings.Join(probs, "; ")))
+	} else {
+		r.OK(rule, "id-class", "-", "exactly [A-Za-z0-9.-]+", k.IDPattern, true)
+	}
 }
